@@ -6,7 +6,7 @@ not-yet-used bytes of the last generated keystream block; the reference semantic
 from vf.extract import FnC, Sel, Mod
 
 P8 = ('C08', 'C14')
-P11 = ('C11',)
+P11 = ('C10', 'C11')
 
 STREAM_MEMBERS = '''
     spec fn swf(&self) -> bool;
